@@ -13,8 +13,12 @@ CACHE = os.path.join(VERIF, ".cache")
 CONFIGS = {
     # CI's "std" row plus serde
     "A": ["--features", "serde"],
-    # CI's "no_std" row plus serde; also the fma branch MinGW takes
-    "B": ["--no-default-features", "--features", "math_funcs,serde"],
+    # CI's "no_std" row exactly (also the fma branch MinGW takes).  No serde here: serde's default features load
+    # `std` into the crate graph, which makes std's inherent f64 methods (powi, ...) resolvable in a #![no_std] crate
+    # and hides code whose meaning differs between a real no_std build and the default one
+    "B": ["--no-default-features", "--features", "math_funcs"],
+    # no_std with the serde impls (C20)
+    "S": ["--no-default-features", "--features", "math_funcs,serde"],
 }
 
 class BuildError(Exception):
@@ -38,6 +42,7 @@ def tree_hash():
         with open(p, "rb") as fh:
             h.update(fh.read())
         h.update(b"\0")
+    h.update(repr(sorted(CONFIGS.items())).encode())
     for p in (DRIVER,):
         if os.path.exists(p):
             st = os.stat(p)
